@@ -25,30 +25,21 @@ def tables() -> str:
             elif isinstance(n.ops[0], ast.In):
                 in_names += list(ast.literal_eval(n.comparators[0]))
     eq_names = [v for _, v in sorted(eq_names)]
+    # string constants compared (==) with something that is lower()-ed inside _data_sheets_sort
     fs = _find_func(cls, "_data_sheets_sort")
     desc = []
     for n in ast.walk(fs):
-        if isinstance(n, ast.keyword) and n.arg == "reverse" and isinstance(n.value, ast.Compare):
-            desc.append(ast.literal_eval(n.value.comparators[0]))
-            # operation.order.lower() == …
-            left = n.value.left
-            assert isinstance(left, ast.Call) and left.func.attr == "lower", ast.dump(left)
-    assert len(desc) == 1, desc
-    # filter keeps rows with `eval(...) is True`
-    ff = _find_func(cls, "_data_sheets_filter")
-    tests = []
-    for n in ast.walk(ff):
-        if isinstance(n, ast.If) and isinstance(n.test, ast.Compare):
-            t = n.test
-            tests.append((type(t.ops[0]).__name__, ast.literal_eval(t.comparators[0])))
-    assert len(tests) == 1, tests
+        if isinstance(n, ast.Compare) and len(n.ops) == 1 and isinstance(n.ops[0], (ast.Eq, ast.NotEq)):
+            for side in [n.left] + n.comparators:
+                if isinstance(side, ast.Constant) and isinstance(side.value, str):
+                    desc.append(side.value)
+    desc = sorted(set(desc))
     rm = _parse("parsers/creation/contentindexrowmodel.py")
     op = _find_class(rm, "Operation")
     fields = [s.target.id for s in op.body if isinstance(s, ast.AnnAssign)]
     return (
         f"def dataOpTypeNames : List (List Char) := {lean_str_list(eq_names)}\n"
         f"def dataOpSingleSource : List (List Char) := {lean_str_list(in_names)}\n"
-        f"def dataOpDescending : List Char := {lean_str(desc[0])}\n"
-        f"def dataOpFilterTest : List Char × Bool := ({lean_str(tests[0][0])}, {'true' if tests[0][1] is True else 'false'})\n"
+        f"def dataOpOrderWords : List (List Char) := {lean_str_list(desc)}\n"
         f"def dataOpFields : List (List Char) := {lean_str_list(fields)}\n"
     )
